@@ -267,17 +267,33 @@ func runC03(c *Check) {
 		// the running minimum is updated from s.TimeNanos; that update must be unreachable
 		// when s.TimeNanos is 0 ("earliest non-zero one")
 		var upd *ssa.BasicBlock
+		// a TimeNanos read from one of the inputs (not from the profile being built)
+		fromInput := func(v ssa.Value) bool {
+			if !isFieldLoad(v, "profile.Profile", "TimeNanos") {
+				return false
+			}
+			ld, ok := v.(*ssa.UnOp)
+			if !ok {
+				return false
+			}
+			rk, _ := rootOf(ld.X, 0, map[ssa.Value]bool{})
+			return rk == rParam
+		}
 		for _, b := range ch.Blocks {
 			for _, ins := range b.Instrs {
-				phi, ok := ins.(*ssa.Phi)
-				if !ok {
-					continue
-				}
-				for i, e := range phi.Edges {
-					if isFieldLoad(e, "profile.Profile", "TimeNanos") {
-						if ld := e.(*ssa.UnOp); ld.Block() != nil {
-							upd = ld.Block()
-							_ = i
+				switch x := ins.(type) {
+				case *ssa.Phi:
+					// accumulated in a local variable
+					for _, e := range x.Edges {
+						if fromInput(e) {
+							upd = e.(*ssa.UnOp).Block()
+						}
+					}
+				case *ssa.Store:
+					// accumulated in the result's own field (or a variable cell)
+					if fromInput(x.Val) {
+						if rk, _ := rootOf(x.Addr, 0, map[ssa.Value]bool{}); rk == rFresh || rk == rFreshHeap {
+							upd = x.Block()
 						}
 					}
 				}
@@ -292,7 +308,7 @@ func runC03(c *Check) {
 					return 0
 				}
 				// assume s.TimeNanos == 0
-				if isFieldLoad(cmp.X, "profile.Profile", "TimeNanos") {
+				if fromInput(cmp.X) {
 					if k, isK := constInt(cmp.Y); isK && k == 0 {
 						switch cmp.Op {
 						case token.EQL:
@@ -593,7 +609,9 @@ func sourceDerived(v ssa.Value, isSource func(*ssa.Parameter) bool, seen map[ssa
 // fieldsReadOf: the fields of struct type T that f (and its closures) load.
 func fieldsReadOf(f *ssa.Function, T string) map[string]bool {
 	out := map[string]bool{}
-	forEachFuncAndAnon(f, func(g *ssa.Function) {
+	// the function, its closures and the same-package helpers it calls (a constructor or a
+	// key may be split into several functions)
+	for _, g := range withHelpers(f, 2) {
 		for _, b := range g.Blocks {
 			for _, ins := range b.Instrs {
 				switch x := ins.(type) {
@@ -608,7 +626,7 @@ func fieldsReadOf(f *ssa.Function, T string) map[string]bool {
 				}
 			}
 		}
-	})
+	}
 	return out
 }
 
@@ -833,9 +851,15 @@ func (c *Check) numericTokensSeparated(f *ssa.Function) {
 					key := "encoding:" + fnName(g)
 					// the next write to the same buffer on every path
 					bad := ""
-					seen := map[*ssa.BasicBlock]bool{}
-					var walk func(x *ssa.BasicBlock, from int)
-					walk = func(x *ssa.BasicBlock, from int) {
+					type st struct {
+						b      *ssa.BasicBlock
+						looped *ssa.BasicBlock
+					}
+					seen := map[st]bool{}
+					// looped: the header of a loop whose back edge the path has taken; its
+					// forward index is then >= 1, which decides `if i > 0 { sep }` tests
+					var walk func(x *ssa.BasicBlock, from int, looped *ssa.BasicBlock)
+					walk = func(x *ssa.BasicBlock, from int, looped *ssa.BasicBlock) {
 						for j := from; j < len(x.Instrs); j++ {
 							r2, k2 := writeKind(x.Instrs[j])
 							if k2 == "" || !sameCellOrValue(r2, recv) && r2 != recv {
@@ -849,14 +873,30 @@ func (c *Check) numericTokensSeparated(f *ssa.Function) {
 							}
 							return
 						}
-						for _, sc := range x.Succs {
-							if !seen[sc] {
-								seen[sc] = true
-								walk(sc, 0)
+						succs := x.Succs
+						if iff, ok := x.Instrs[len(x.Instrs)-1].(*ssa.If); ok && looped != nil && len(succs) == 2 {
+							if pol, decided := positiveIndexTest(iff.Cond, looped); decided {
+								if pol {
+									succs = succs[:1]
+								} else {
+									succs = succs[1:]
+								}
+							}
+						}
+						for _, sc := range succs {
+							l2 := looped
+							if sc.Dominates(x) {
+								l2 = sc // back edge
+							} else if looped != nil && !naturalLoop(looped)[sc] {
+								l2 = nil
+							}
+							if k := (st{sc, l2}); !seen[k] {
+								seen[k] = true
+								walk(sc, 0, l2)
 							}
 						}
 					}
-					walk(b, i+1)
+					walk(b, i+1, nil)
 					if bad == "" {
 						c.ok("C03-R2", key, p.relFile(ins.Pos()), "a number written into the key buffer of "+fnName(g)+" is followed by a separator", "the next write on every path is a constant")
 					} else {
@@ -878,4 +918,24 @@ func (c *Check) numericTokensSeparated(f *ssa.Function) {
 		}
 	})
 	_ = n
+}
+
+// positiveIndexTest: cond compares the forward index of the loop headed by hdr with zero;
+// returns the outcome it has on every iteration after the first (index >= 1).
+func positiveIndexTest(cond ssa.Value, hdr *ssa.BasicBlock) (outcome, decided bool) {
+	cmp, ok := cond.(*ssa.BinOp)
+	if !ok {
+		return false, false
+	}
+	k, isK := constInt(cmp.Y)
+	if !isK || !isForwardIndex(cmp.X) || loopHeaderOfIndex(cmp.X) != hdr {
+		return false, false
+	}
+	switch {
+	case cmp.Op == token.GTR && k == 0, cmp.Op == token.NEQ && k == 0, cmp.Op == token.GEQ && k == 1:
+		return true, true
+	case cmp.Op == token.EQL && k == 0, cmp.Op == token.LSS && k == 1, cmp.Op == token.LEQ && k == 0:
+		return false, true
+	}
+	return false, false
 }
